@@ -293,6 +293,7 @@ def check_build_state(st, out):
     o1 = objs[0]
     real = [L.base_spec(dict(f=o1['sub'], b=1 if o1['given'] else 0, v=o1['sent'])), Invoke(L.echo)]
     reprs = [repr(x) for x in real]
+    behs = [behaviour(x, o['cls']) for x, o in zip(real, objs)]
     case = dict(kind='build', state=dict(objs=objs, bhist=hist, pred=pred))
 
     def bad(why, **kw):
@@ -313,6 +314,14 @@ def check_build_state(st, out):
                 clause='repr')
             ok = False
         reprs = now + [repr(new)]
+        # behaviour (not only repr) of every earlier spec, re-run after this derivation
+        nowb = [behaviour(x, o['cls']) for x, o in zip(real[:-1], objs)]
+        if nowb != behs:
+            j = [a != b for a, b in zip(nowb, behs)].index(True)
+            bad('behaviour of spec %d (%s) changed from %s to %s by derivation %d' % (j + 1, reprs[j], behs[j], nowb[j], n + 1),
+                clause='frame')
+            ok = False
+        behs = nowb + [behaviour(new, objs[len(real) - 1]['cls'])]
     out['n'] += 1
     if not ok:
         return
@@ -372,7 +381,7 @@ def rand_stage(rng, depth):
         stop = rng.choice([-1, -1, start, start + 1, start + 2, start + 4, 6])
         return S('slice', 'slice', start, stop, rng.randint(1, 3)), depth
     if k == 'limit':
-        return S('slice', 'limit', 0, rng.randint(0, 5), 1), depth
+        return S('slice', rng.choice(['limit', 'limit', 'slice1']), 0, rng.randint(0, 5), 1), depth
     if k in ('takewhile', 'dropwhile'):
         return S(k, rng.choice(['T', 'lt2', 'odd'])), depth
     if k == 'chunked':
